@@ -109,12 +109,12 @@ type Event struct {
 	AcceptB []string `json:"acceptB"`
 	C       string   `json:"c"`
 	M       int      `json:"m"`
-	MT      string   `json:"mt"`     // type of the delivered message
-	MKey    string   `json:"mkey"`   // for a delivered InitHello: the key it claims
-	Key     string   `json:"key"`    // restart key
-	App     bool     `json:"app"`    // Deliver handed application data up
-	Data    string   `json:"data"`   // id of that data ("" = none, "?" = not a plaintext that was sent)
-	Sent    []string `json:"sent"`   // data ids whose Send completed during this step
+	MT      string   `json:"mt"`      // type of the delivered message
+	MKey    string   `json:"mkey"`    // for a delivered InitHello: the key it claims
+	Key     string   `json:"key"`     // restart key
+	App     bool     `json:"app"`     // Deliver handed application data up
+	Data    string   `json:"data"`    // id of that data ("" = none, "?" = not a plaintext that was sent)
+	Sent    []string `json:"sent"`    // data ids whose Send completed during this step
 	SentKey []string `json:"sentkey"` // remote key of the current session when each completed
 	New     []NewMsg `json:"new"`
 	A       RSnap    `json:"a"`
@@ -161,23 +161,23 @@ type endpoint struct {
 }
 
 type run struct {
-	b       *Behaviour
-	mu      sync.Mutex
-	keys    map[string]ed25519.PrivateKey
-	ep      map[string]*endpoint
-	msgs    []wire
-	fresh   []int          // ids not yet reported as new
-	bind    map[string]int // model message -> real id
-	sentBy  map[string]string
-	done    []string // data ids whose Send returned nil
-	doneKey []string
-	queries []string
-	events  []Event
+	b        *Behaviour
+	mu       sync.Mutex
+	keys     map[string]ed25519.PrivateKey
+	ep       map[string]*endpoint
+	msgs     []wire
+	fresh    []int          // ids not yet reported as new
+	bind     map[string]int // model message -> real id
+	sentBy   map[string]string
+	done     []string // data ids whose Send returned nil
+	doneKey  []string
+	queries  []string
+	events   []Event
 	valid    bool
 	settling bool
 	rerolled bool
 	accept   map[string]map[string]bool
-	log     *zap.Logger
+	log      *zap.Logger
 }
 
 func msgKey(m *Msg) string {
@@ -664,7 +664,12 @@ func main() {
 	out := flag.String("out", "", "trace output (ndjson)")
 	par := flag.Int("par", 8, "behaviours replayed concurrently")
 	timed := flag.Bool("timed", false, "input is a list of ChannelTime cases")
+	crafted := flag.Bool("crafted", false, "input is a list of ChannelCrafted cases")
 	flag.Parse()
+	if *crafted {
+		craftedMain(*in, *out)
+		return
+	}
 	if *timed {
 		timedMain(*in, *out)
 		return
